@@ -49,7 +49,7 @@ SUMMARY_KEYS = ["errors", "warnings", "missing", "missing_w", "report", "obsolet
                 "changed", "changed_w", "unchanged", "unchanged_w", "keys"]
 VERDICT = {"error": 0, "warning": 1, "ignore": 2}
 VNAME = {0: "error", 1: "warning", 2: "ignore"}
-EXC = {"TypeError": 1, "KeyError": 3, "AssertionError": 4, "UnboundLocalError": 8}
+EXC = {"TypeError": 1, "IndexError": 2, "KeyError": 3, "AssertionError": 4, "UnboundLocalError": 8}
 
 SEG_POOL = ["a", "ab", "b", "browser", "chrome", "de", "dir", "en-US", "f.ftl", "fr",
             "g.properties", "locales", "m", "sub", "toolkit", "x", "y.dtd", "z"]
@@ -482,6 +482,72 @@ def observer_canon(case, ol, outs):
             ser, [err, 0]]
 
 
+def canon_summaries(case, ol):
+    """ObserverList.serializeSummaries as the model prints it: [0, lines] with a
+    line [0, locale id] (header) or [1, code points], or [1, exception code];
+    None when the list counted something for a file without locale (None
+    sorts/prints differently and is outside Model/Summaries.v)"""
+    if any(loc is None for loc in ol.summary.keys()):
+        return None
+    try:
+        text = ol.serializeSummaries()
+    except Exception as e:  # noqa
+        return [1, exc_code(e)]
+    lines = []
+    for line in (text.split("\n") if text else []):
+        if line.endswith(":") and line[:-1] in case["segs"]:
+            lines.append([0, seg_ids(case, [line[:-1]])[0]])
+        else:
+            lines.append([1, s2l(line)])
+    return [0, lines]
+
+
+def summaries_oracle(chk, case, ol):
+    """implementation-only: the printed block read back cell by cell equals the
+    counters of the observers (columns: projects in order, then the list itself
+    when there are several); the percent line is floor(100 changed / total) of
+    the last column; locales ascending, each once"""
+    if not ol.observers or any(loc is None for loc in ol.summary.keys()):
+        return
+    keys = ("errors", "warnings", "missing", "missing_w", "obsolete", "changed", "changed_w",
+            "unchanged", "unchanged_w", "keys")
+    text = ol.serializeSummaries()
+    cols_of = lambda loc: [o.summary.get(loc, {}) for o in ol.observers] + \
+        ([ol.summary[loc]] if len(ol.observers) > 1 else [])  # noqa
+    blocks, cur = [], None
+    for line in (text.split("\n") if text else []):
+        if line.endswith(":") and line[:-1] in case["segs"]:
+            cur = [line[:-1], {}, None]
+            blocks.append(cur)
+        elif cur is None:
+            return _fail(chk, "summary-text-shape", case_public(case), {"text": text})
+        elif line.endswith("% of entries changed"):
+            cur[2] = int(line[:line.index("%")])
+        else:
+            name = line[:12].rstrip()
+            cells = [line[12 + 7 * i: 19 + 7 * i] for i in range((len(line) - 12) // 7)]
+            cur[1][name] = [int(c) if c.strip() else 0 for c in cells]
+    locs = [b[0] for b in blocks]
+    if locs != sorted(ol.summary.keys()):
+        return _fail(chk, "summary-text-locales", case_public(case),
+                     {"text": text, "expected": sorted(ol.summary.keys())})
+    for loc, rows_, rate in blocks:
+        cols = cols_of(loc)
+        for k in keys:
+            want = [c.get(k, 0) for c in cols]
+            got = rows_.get(k, [0] * len(cols))
+            if got != want or ((k in rows_) != any(want)):
+                return _fail(chk, "summary-text-cell", case_public(case),
+                             {"locale": loc, "key": k, "printed": rows_.get(k), "counted": want, "text": text})
+        if set(rows_) - set(keys):
+            return _fail(chk, "summary-text-extra-row", case_public(case), {"text": text})
+        last = cols[-1]
+        total = sum(last.get(k, 0) for k in ("changed", "unchanged", "report", "missing"))
+        if rate != (last.get("changed", 0) * 100 // total if total else 0):
+            return _fail(chk, "summary-text-rate", case_public(case),
+                         {"locale": loc, "printed": rate, "last column": dict(last), "text": text})
+
+
 def observer_wire(case):
     files = [[i, f[0], f[1]] for i, f in enumerate(case["files"])]
     evs = []
@@ -621,10 +687,15 @@ def observer_oracle(chk, case, ol, outs):
 def run_observer(chk, model):
     rng = chk.rng
     cases = [gen_observer_case(rng, i) for i in range(chk.n(2500, 40000))]
-    impl = []
+    impl, summ = [], []
     for c in cases:
         ol, outs = observer_impl(c)
         impl.append(observer_canon(c, ol, outs))
+        summ.append(canon_summaries(c, ol))
+        chk.hist("summaries_text", "locale-None (not compared)" if summ[-1] is None else
+                 "raise%d" % summ[-1][1] if summ[-1][0] else "lines%d" % (len(summ[-1][1]) // 5 * 5))
+        if c["strict"] and c["prefix_free"]:
+            summaries_oracle(chk, c, ol)
         chk.count(("obs", c["files"], c["quiet"], c["confs"], c["events"]))
         chk.hist("observer_events", len(c["events"]) // 10 * 10)
         chk.hist("observer_quiet", c["quiet"])
@@ -641,6 +712,9 @@ def run_observer(chk, model):
     if model:
         outs = model.call([(1, observer_wire(c)) for c in cases])
         chk.correspond("OBSERVER", cases, impl, [o[:5] for o in outs], describe=case_public)
+        keep = [i for i, x in enumerate(summ) if x is not None]
+        chk.correspond("SUMMARIES-TEXT", [cases[i] for i in keep], [summ[i] for i in keep],
+                       [outs[i][6] for i in keep], describe=case_public)
         names = CATS + ["other", "errors", ""]
         got = model.call([(2, nm) for nm in names])
         chk.correspond("CATEGORY-NAMES", names, [0, 1, 2, 3, 4, 5, 6, 6, 6], got)
